@@ -1573,3 +1573,51 @@ def s_r13_no_scale_on_document_amounts(schema: Schema, rep: Report):
                 rep.check("S-R13", f"{ci.name}.{name}:no-scale", False, f"{ci.name}.{name} is declared Decimal(scale={ch.scale}): the reader rounds the document's value to {ch.scale} decimals silently (1520.755 -> 1520.76; 0.005 -> 0.00), so the model no longer holds the value of the document", child_loc(ch))
     rep.floor("S-R13", n, 200, "Decimal children")
     rep.check("S-R13", "models:no-decimal-scale", True, "", f"{n} Decimal children")
+
+
+# `at least one of the repeated children` constraints stated in validate_args only, confirmed by reading and frozen:
+# class -> repeated children that do NOT count (everything else the class declares as a list member does)
+AT_LEAST_ONE_TABLES = {
+    "TAX1099RS": ({"fidirectdepositinfo"}, "OFX tax 2.2.6: a response carries one or more 1099 forms; FIDIRECTDEPOSITINFO is an optional extra"),
+}
+
+
+def s_r6h_at_least_one_tables(schema: Schema, rep: Report):
+    """the members that satisfy an `at least one` constraint are all the declared forms"""
+    rep.rule("S-R6h", "an `at least one of the repeated children` constraint written in validate_args (TAX1099RS: at least one 1099 form) is satisfied by EVERY repeated child the class declares, bar the ones the frozen table excludes: the members the override's test admits - a class-name prefix test, or isinstance() against a tuple of classes (folded through module constants) - are compared with the declared list members.  A table of forms that omits one (TAX1099OID_V100) makes an instance holding only that declared child impossible to build or read back")
+    p = schema.p
+    overrides = {ci.name: (ci, fn0) for ci, fn0 in validate_overrides(schema)}
+    n = 0
+    for cname, (excluded, src) in sorted(AT_LEAST_ONE_TABLES.items()):
+        if cname not in overrides:
+            rep.note(f"S-R6h undecided: {cname} no longer overrides validate_args")
+            continue
+        ci, fn = overrides[cname]
+        members = {nm: ch.target.name for nm, ch in schema.spec(ci).items() if ch.kind == "ListAggregate" and ch.target is not None}
+        want = {cls_ for nm, cls_ in members.items() if nm not in excluded}
+        admitted = None
+        for x in ast.walk(fn):
+            if isinstance(x, ast.Call) and isinstance(x.func, ast.Attribute) and x.func.attr == "startswith" and x.args and isinstance(x.args[0], ast.Constant) and "__name__" in text(x.func.value):
+                admitted = {c_ for c_ in members.values() if c_.startswith(x.args[0].value)}
+            elif isinstance(x, ast.Compare) and len(x.ops) == 1 and isinstance(x.ops[0], ast.Eq) and isinstance(x.left, ast.Subscript) and "__name__" in text(x.left) and isinstance(x.comparators[0], ast.Constant) and isinstance(x.comparators[0].value, str):
+                admitted = {c_ for c_ in members.values() if c_.startswith(x.comparators[0].value)}
+            elif isinstance(x, ast.Call) and isinstance(x.func, ast.Name) and x.func.id == "isinstance" and len(x.args) == 2:
+                t = x.args[1]
+                names = None
+                if isinstance(t, ast.Tuple):
+                    names = [text(e) for e in t.elts]
+                elif isinstance(t, ast.Name):
+                    binds = [pl for bn, kd, pl in p.module(ci.module).bindings if bn == t.id and kd == "assign"]
+                    if len(binds) == 1 and isinstance(binds[0], (ast.Tuple, ast.List)):
+                        names = [text(e) for e in binds[0].elts]
+                    elif members and t.id in members.values():
+                        names = [t.id]
+                if names is not None and any(nm_ in members.values() for nm_ in names):
+                    admitted = (admitted or set()) | {nm_ for nm_ in names if nm_ in members.values()}
+        if admitted is None:
+            rep.note(f"S-R6h undecided: how {cname}.validate_args tells the forms from the other members was not recognised")
+            continue
+        n += 1
+        missing = sorted(want - admitted)
+        rep.check("S-R6h", f"{cname}.validate_args:every-form-counts", not missing, f"{cname}.validate_args does not count {missing} towards `at least one`: the class declares them as repeated children ({src}), but an instance holding only such members is refused on construction and on parsing" if missing else "", loc(ci, fn))
+    rep.unit("at_least_one_tables", n)
